@@ -17,6 +17,8 @@ mod ops_frag;
 mod ops_codec;
 #[path = "ops_milu.rs"]
 mod ops_milu;
+#[path = "ops_dispatch.rs"]
+mod ops_dispatch;
 
 thread_local! {
     static LAST_PANIC: RefCell<String> = RefCell::new(String::new());
@@ -30,6 +32,7 @@ pub async fn run_line(line: &str) -> String {
         "frag_seq" => ops_frag::frag_seq(&args),
         "frag_make" => ops_frag::frag_make(&args),
         "frag_rt" => ops_frag::frag_roundtrip(&args),
+        "dispatch" => ops_dispatch::dispatch(&args).await,
         "milu_parse" => ops_milu::milu_parse(&args),
         "milu_eval" => ops_milu::milu_eval(&args),
         "req_texts" => ops_milu::req_texts(&args),
